@@ -1,7 +1,7 @@
 #!/bin/bash
 # like tools_seedmatrix.sh but for the names given on the command line; appends to seeded/RESULTS4.tsv
 cd /verif
-out=/verif/seeded/RESULTS4.tsv
+out=${OUT:-/verif/seeded/RESULTS4.tsv}
 [ -f $out ] || echo -e "mutant\tproperty\texit\tviolation_lines\tfirst_violation" > $out
 for name in "$@"; do
   d=/verif/seeded/$name; prop=${name%%-*}; prop=${prop#self}
